@@ -10,7 +10,10 @@
 #include <babylon/concurrent/transient_hash_table.h>
 
 #include <stdio.h>
+#include <stdlib.h>
 #include <string.h>
+
+#include <new>
 
 #include <map>
 #include <set>
@@ -53,6 +56,45 @@ struct HashSpec {
 struct World;
 World* W = nullptr;
 long g_live = 0;  // elements constructed - destroyed (per case; reset in run_case)
+
+// Table storage (control bytes + value array; the only over-aligned allocations babylon makes here)
+// is registered by the replaced aligned operator new below: the allocating thread marks the block,
+// and a thread that is handed an element inside the block must happen-after that mark. This makes
+// the plain initialisation of a chained table (TableNode members, memset control bytes) visible to
+// the happens-before check although plain accesses themselves are not instrumented.
+struct Storage {
+  uintptr_t lo, hi;
+  dsched::TrackState ts;
+};
+constexpr int MAX_STORAGE = 128;
+Storage g_storage[MAX_STORAGE];
+int g_nstorage = 0;
+bool g_case_active = false;
+
+void storage_add(void* p, size_t n) {
+  if (!g_case_active || g_nstorage >= MAX_STORAGE) return;
+  Storage& s = g_storage[g_nstorage++];
+  s.lo = (uintptr_t)p;
+  s.hi = s.lo + n;
+  dsched::track_reset(&s.ts);
+  dsched::track_write(&s.ts, "table storage (allocation)");
+}
+void storage_remove(void* p) {
+  for (int i = 0; i < g_nstorage; i++)
+    if (g_storage[i].lo == (uintptr_t)p) {
+      if (dsched::active()) dsched::on_free(p, g_storage[i].hi - g_storage[i].lo);
+      g_storage[i] = g_storage[--g_nstorage];
+      return;
+    }
+}
+void storage_check(const void* addr) {
+  uintptr_t a = (uintptr_t)addr;
+  for (int i = 0; i < g_nstorage; i++)
+    if (a >= g_storage[i].lo && a < g_storage[i].hi) {
+      dsched::track_read(&g_storage[i].ts, "table storage (initialised by the thread that allocated the table)");
+      return;
+    }
+}
 
 uint64_t mixa(int k, uint64_t t) { return (uint64_t)k * 1000003u + t * 7 + 1; }
 uint64_t mixb(int k, uint64_t t) { return ~((uint64_t)k * 31 + t); }
@@ -447,6 +489,7 @@ void run_op(Box& box, int thread, const Op& op, int opseq_in_thread) {
     }
   }
   if (r.has_addr) {
+    storage_check(r.addr);
     auto it = w.addr_of.find(op.key);
     if (it == w.addr_of.end()) {
       w.addr_of[op.key] = r.addr;
@@ -595,15 +638,14 @@ void run_program(Box& box, Chooser& c, int nkeys, size_t first_capacity) {
   if (w.kind != K_FIXED && winners > 0 && distinct > first_capacity) { dsched::label("grew_in_concurrent_phase"); nt = true; }
   if (w.default_head && prefill_n == 0) {
     // the very first insertions race to chain the first real table behind the placeholder head
+    bool race = false;
     for (size_t i = 0; i < w.ops.size(); i++)
       for (size_t j = i + 1; j < w.ops.size(); j++) {
         const OpRec& a = w.ops[i];
         const OpRec& b = w.ops[j];
-        if (a.thread != b.thread && is_insert(a.kind) && is_insert(b.kind) && a.begin < b.end && b.begin < a.end && !nt) {
-          dsched::label("first_table_append_race");
-          nt = true;
-        }
+        if (a.thread != b.thread && is_insert(a.kind) && is_insert(b.kind) && a.begin < b.end && b.begin < a.end) race = true;
       }
+    if (race) { dsched::label("first_table_append_race"); nt = true; }
   }
   if (nt && dsched::stat_switches() >= 2) dsched::nontrivial();
   for (auto& o : w.ops) dsched::mix_hash(((uint64_t)o.key << 32) ^ ((uint64_t)o.kind << 24) ^ (o.r.found ? 2u : 0u) ^ (o.r.inserted ? 1u : 0u) ^ (o.begin << 8));
@@ -613,6 +655,8 @@ void run_case(Chooser& c) {
   World world;
   W = &world;
   g_live = 0;
+  g_nstorage = 0;
+  g_case_active = true;
   Kind kind = (Kind)c.below(3);
   int bopt = (int)c.below(3);  // 0: 16 buckets, 1: 32 buckets, 2: default-constructed
   world.kind = kind;
@@ -697,12 +741,33 @@ void run_case(Chooser& c) {
     delete t;
   }
   if (g_live != 0) dsched::fail("element-lifecycle", "%ld elements constructed but not destroyed after the container died", g_live);
+  g_case_active = false;
+  g_nstorage = 0;
   W = nullptr;
 }
 
 void tune(dsched::Params& p, Chooser&) { p.max_steps = 300000; }
 
 }  // namespace
+
+// replaced over-aligned allocation functions (the default nothrow forms forward to these)
+void* operator new(size_t n, std::align_val_t al) {
+  size_t a = (size_t)al;
+  if (a < sizeof(void*)) a = sizeof(void*);
+  void* p = nullptr;
+  if (posix_memalign(&p, a, n ? n : 1) != 0) abort();
+  storage_add(p, n);
+  return p;
+}
+void* operator new[](size_t n, std::align_val_t al) { return operator new(n, al); }
+void operator delete(void* p, std::align_val_t) noexcept {
+  if (!p) return;
+  storage_remove(p);
+  free(p);
+}
+void operator delete(void* p, size_t, std::align_val_t al) noexcept { operator delete(p, al); }
+void operator delete[](void* p, std::align_val_t al) noexcept { operator delete(p, al); }
+void operator delete[](void* p, size_t, std::align_val_t al) noexcept { operator delete(p, al); }
 
 int main(int argc, char** argv) {
   vf::Target t;
